@@ -21,6 +21,7 @@ ASSUMPTIONS = [
     'every fragment spans less than half the cache size (48 < 50)',
     'UMIs are compared exactly (umi_hamming_distance=0)',
     'pooling methods are only compared with each other for site-exact classes (NlaIII, CHIC radius 0)',
+    'plain-class input is sorted by fragment start; a re-used iterator object must behave like a fresh one after an abandoned iteration',
 ]
 
 CACHE = 100
@@ -40,8 +41,11 @@ LETTERS = [
 # so a molecule can grow at its end and a later-starting fragment can still join it through its end coordinate
 PLAIN_LETTERS = [
     ('chr1', 0, 10, 1), ('chr1', 0, 41, 1), ('chr1', 0, 49, 1), ('chr1', 10, 49, 1), ('chr1', 41, 49, 1), ('chr1', 45, 49, 1),
-    ('chr1', 62, 100, 1), ('chr1', 5, 15, 2), ('chr1', 41, 62, 2), ('chr1', 41, 80, 2),
+    ('chr1', 62, 100, 1), ('chr1', 5, 10, 1), ('chr1', 5, 15, 2), ('chr1', 41, 62, 2), ('chr1', 41, 80, 2),
     ('chr2', 0, 10, 1), ('chr2', 10, 49, 1),      # same coordinates as chr1 letters, on another contig
+    # a read pair whose mates map to the SAME strand (forward/forward): its span ends at the start of the right mate
+    # (45), its last aligned base lies 20 further (65)
+    ('chr1', 1, 11, 2, 45, 65),
 ]
 PLAIN_BASE = 1000
 
@@ -58,11 +62,21 @@ def build_plain(word):
     from gen.reads import make_read
     out = []
     for i, li in enumerate(word):
-        contig, s, e, cell = PLAIN_LETTERS[li]
+        letter = PLAIN_LETTERS[li]
+        contig, s, e, cell = letter[:4]
         n = e - s
-        r = make_read(HDR, f'f{i}', 'A' * n, contig, PLAIN_BASE + s, f'{n}M', paired=False,
-                      tags={'SM': f'LIB_{cell}', 'RX': 'AAA', 'BC': 'ACGTACGT', 'bi': cell})
-        out.append([r, None])
+        tags = {'SM': f'LIB_{cell}', 'RX': 'AAA', 'BC': 'ACGTACGT', 'bi': cell}
+        if len(letter) == 4:
+            r = make_read(HDR, f'f{i}', 'A' * n, contig, PLAIN_BASE + s, f'{n}M', paired=False, tags=tags)
+            out.append([r, None])
+        else:
+            s2, e2 = letter[4:]
+            n2 = e2 - s2
+            r1 = make_read(HDR, f'f{i}', 'A' * n, contig, PLAIN_BASE + s, f'{n}M', reverse=False, read1=True, paired=True,
+                           mate=(contig, PLAIN_BASE + s2, False, False), tags=tags, proper=False)
+            r2 = make_read(HDR, f'f{i}', 'C' * n2, contig, PLAIN_BASE + s2, f'{n2}M', reverse=False, read1=False, paired=True,
+                           mate=(contig, PLAIN_BASE + s, False, False), tags=tags, proper=False)
+            out.append([r1, r2])
     return out
 
 
@@ -103,7 +117,7 @@ def orders(multiset, kind='site'):
         yield tuple(x for g in combo for x in g)
 
 
-def run_iter(word, cls, e, pooling, cache):
+def run_iter(word, cls, e, pooling, cache, abandon_first=False):
     from singlecellmultiomics.molecule import MoleculeIterator, NlaIIIMolecule, CHICMolecule
     from singlecellmultiomics.fragment import NlaIIIFragment, CHICFragment
     reads = build(word, cls)
@@ -128,6 +142,22 @@ def run_iter(word, cls, e, pooling, cache):
             counter['n'] += 1
             yield r
     it.alignments = feed()
+    if abandon_first:
+        # history: an iteration of the SAME iterator object that is abandoned after its first molecule, then a complete one
+        g = iter(it)
+        try:
+            next(g)
+        except StopIteration:
+            pass
+        del g
+        reads2 = build(word, cls)
+        counter['n'] = 0
+
+        def feed2():
+            for r in reads2:
+                counter['n'] += 1
+                yield r
+        it.alignments = feed2()
     for m in it:
         mols.append(m)
         consumed_at_yield.append(counter['n'])
@@ -164,6 +194,18 @@ def check_word(word, tier, kind='site'):
                     elif part != base:
                         viol.setdefault(f'{cls}:pooling{pooling}:partition-depends-on-ejection-schedule',
                                         {'e': e, 'cache': cache, 'got': part, 'never_eject': base})
+                    if cache == 100 and e in (None, 0) and base is not None:
+                        try:
+                            mols2, _ = run_iter(word, cls, e, pooling, cache, abandon_first=True)
+                            nruns += 1
+                            part2 = partition_of(mols2)
+                            if part2 != base:
+                                names2 = [x for g in part2 for x in g]
+                                what = ('fragment-emitted-twice' if len(names2) != len(set(names2)) else 'partition-differs')
+                                viol.setdefault(f'{cls}:pooling{pooling}:re-iteration-after-abandoned-iteration:{what}',
+                                                {'e': e, 'got': part2, 'fresh': base})
+                        except Exception as ex:
+                            viol.setdefault(f'{cls}:pooling{pooling}:re-iteration:exception:{type(ex).__name__}', {'e': e, 'ex': repr(ex)})
                     # non-trivial: mid-stream ejection of a molecule while an older molecule is emitted later
                     first = [min(int(r.query_name[1:]) for r in m.iter_reads()) for m in mols]
                     for i, c in enumerate(consumed):
